@@ -3,6 +3,8 @@
 import json, os, glob, re
 V = '/verif'
 matrix = json.load(open(V + '/seeded/matrix.json')) if os.path.exists(V + '/seeded/matrix.json') else {}
+# the first run of each seed, before the checks were strengthened with what it taught (kept for the record)
+first = json.load(open(V + '/seeded/matrix_first_runs.json')) if os.path.exists(V + '/seeded/matrix_first_runs.json') else {}
 for d in sorted(glob.glob(V + '/seeded/C*-*')):
     name = os.path.basename(d)
     prop = name.split('-')[0]
@@ -13,13 +15,15 @@ for d in sorted(glob.glob(V + '/seeded/C*-*')):
     mm = re.search(r'(?is)(needs? (?:in order )?to manifest|what it needs)[^\n]*\n(.*?)(\n\s*\n|\n#|\Z)', notes)
     if mm:
         needs = ' '.join(mm.group(2).split())[:600]
-    meta = {'property': prop, 'origin': 'independent sub-agent given only the property text and a scratch worktree (round %s)' % ('1' if name.endswith('-a') else '2'),
+    meta = {'property': prop, 'origin': 'independent sub-agent given only the property text and a scratch worktree (round %s)' % {'a': '1', 'b': '2', 'c': '3'}[name[-1]],
             'breaks': prop, 'needs_to_manifest': needs or notes[:600],
             'confirmed': {'base_commit': ver.get('base'), 'suite_with_change': ver.get('suite'), 'demo_without_change_rc': ver.get('demo_pristine_rc'),
                           'demo_with_change_rc': ver.get('demo_patched_rc'), 'confirmed': ver.get('confirmed'),
                           'how': 'tools/verify_seed.py: fresh scratch worktree of /repo HEAD; demo.py passes; git apply patch; repository suite; demo.py fails; worktree removed'},
             'rebased_patch': os.path.exists(d + '/patch_rebased.diff'),
             'check_run': {'command': 'tools/try_patch.py seeded/%s/%s %s  (VERIF_REPO = scratch worktree with the patch; ./check %s --tier quick)' %
-                                      (name, m.get('patch', 'patch.diff'), prop, prop), 'status': m.get('status'), 'first_report': m.get('first_report')}}
+                                      (name, m.get('patch', 'patch.diff'), prop, prop), 'status': m.get('status'), 'first_report': m.get('first_report'),
+                          'other_checks': m.get('other_checks')},
+            'first_run_before_strengthening': first.get(name)}
     json.dump(meta, open(d + '/meta.json', 'w'), indent=1)
 print('meta written for', len(glob.glob(V + '/seeded/C*-*')))
